@@ -1033,6 +1033,32 @@ class Paths:
                     out_.append(cs_[0][2])
                 if out_ is not None:
                     return [([], [], ("agg", "array", tuple(out_)))]
+        if name == "try_for_each" and len(args) == 2 and "Iterator" in path and (is_closure(raw(1)) or is_fnitem(raw(1))):
+            # try_for_each over a sequence of statically known elements (a literal array of decorations, say): the
+            # closure applied to each element in turn, stopping at the first Err
+            seq = self._seq_of(raw(0), depth)
+            if seq is not None and 1 <= len(seq) <= 4:
+                states, out_, okf = [([], [])], [], True
+                for el in seq:
+                    nxt = []
+                    for f0, e0 in states:
+                        cs = self._apply_callable(raw(1), [el], depth)
+                        if cs is None:
+                            okf = False
+                            break
+                        for f1, e1, r1 in cs:
+                            for f2, pay, v in self._split(r1, RES):
+                                if v == "Ok":
+                                    nxt.append((f0 + list(f1) + list(f2), e0 + list(e1)))
+                                else:
+                                    out_.append((f0 + list(f1) + list(f2), e0 + list(e1), err(pay)))
+                    if not okf or len(nxt) + len(out_) > 64:
+                        okf = False
+                        break
+                    states = nxt
+                if okf:
+                    out_ += [(f0, e0, ok(UNIT)) for f0, e0 in states]
+                    return out_
         if name in ("sum", "product") and len(args) == 1 and "Iterator" in path:
             # a reduction of a sequence of statically known elements (literal / constant arrays, zipped, mapped by a pure
             # single-path closure): the chain of additions it stands for
